@@ -175,8 +175,29 @@ def apply_ops(xx, ops, flip=[0]):
         elif op[0] == "type":
             xx = xx.astype("float32" if xx.dtype != np.float32 else "int32")
         elif op[0] == "pickle":
-            xx = pickle.loads(pickle.dumps(xx))
+            xx = roundtrip(xx, op[1] if len(op) > 1 else "pickle", op[2] if len(op) > 2 else False)
     return xx
+
+
+RT_KINDS = ["pickle", "copy", "deepcopy", "xcopy", "xcopy-deep"]
+
+
+def roundtrip(xx, kind="pickle", touch=False):
+    """serialisation / copy round trip of the xarray object (the model's identity op `p`); with `touch` the
+    `.odc` accessor is read first, so the cached accessor (and the GeoBox inside it) travels along"""
+    import copy
+
+    if touch:
+        _ = xx.odc.geobox
+    if kind == "pickle":
+        return pickle.loads(pickle.dumps(xx))
+    if kind == "copy":
+        return copy.copy(xx)
+    if kind == "deepcopy":
+        return copy.deepcopy(xx)
+    if kind == "xcopy":
+        return xx.copy(deep=False)
+    return xx.copy(deep=True)
 
 
 def rnd_bound(rng, n):
@@ -218,12 +239,12 @@ def rnd_ops(rng, dims0, sizes, allow_spatial_int, maxlen=8):
                 break  # IndexError ends the history
             else:
                 break
-        elif r < 0.78:
+        elif r < 0.75:
             ops.append(("arith",))
-        elif r < 0.89:
+        elif r < 0.83:
             ops.append(("type",))
         else:
-            ops.append(("pickle",))
+            ops.append(("pickle", rng.choice(RT_KINDS), rng.random() < 0.6))
     return ops
 
 
@@ -440,6 +461,26 @@ def location_oracle(R: Run, g, xx, ops, dims, sizes, case, tag, exact):
                      f"pixel-space labels of {dim} are {lab[:4]}.. expected original index + 0.5 = {(ix + 0.5)[:4]}..")
 
 
+def roundtrip_oracle(R: Run, g, yy, case):
+    """pickle / copy / deepcopy of the array — before and after the accessor was touched — must not change what
+    `.odc` recovers (GeoBox incl. pixel transform, CRS, GCPs) nor the labels"""
+    cls = klass(g)
+    try:
+        before = arr_s(yy)
+    except Exception:  # pylint: disable=broad-except
+        return
+    for kind in RT_KINDS:
+        for touch in (True, False):
+            try:
+                zz = roundtrip(yy, kind, touch)
+                after = arr_s(zz)
+            except Exception as e:  # pylint: disable=broad-except
+                after = f"raised {type(e).__name__}: {e}"
+            R.oracle(after == before, f"roundtrip-preserves|{cls}|{kind}", dict(case, roundtrip=kind, accessor_touched=touch),
+                     f"{kind} round trip ({'after' if touch else 'before'} .odc was read) changes the registration: "
+                     f"{before[:160]} -> {after[:160]}")
+
+
 def roundtrip_eq_oracle(R: Run, g, xx, case, exact):
     """no-op history: recovered geobox equals the original"""
     cls = klass(g)
@@ -536,6 +577,7 @@ def run(R: Run):
             if not ops:
                 roundtrip_eq_oracle(R, g, box[1], case, exact=True)
             location_oracle(R, g, box[1], ops, dims, sizes, case, list_s(ops, op_s), exact=True)
+            roundtrip_oracle(R, g, box[1], case)
             # ... and after every step of the history, not only at its end
             if ops and len(ops) <= 6:
                 cur = box[0]
@@ -575,9 +617,13 @@ def run(R: Run):
         if not ops:
             roundtrip_eq_oracle(R, g, yy, case, exact=False)
         location_oracle(R, g, yy, ops, dims, sizes, case, list_s(ops, op_s), exact=False)
+        if not big and rng.random() < 0.5:
+            roundtrip_oracle(R, g, yy, case)
 
     # --- reprojection output assembly
     reproject_part(R, mods)
+    # --- option forwarding
+    options_part(R, mods)
 
     R.assumptions.append(
         "xarray keeps index-coordinate values, attrs and encoding of kept coordinates under isel / arithmetic / "
@@ -632,6 +678,103 @@ def corpus(R: Run, mods):
 
 
 SPATIAL = ("crs", "crs_wkt", "grid_mapping", "gcps", "epsg")
+
+
+def val_s(v) -> str:
+    if v is None:
+        return "N"
+    if v is True:
+        return "T"
+    if v is False:
+        return "F"
+    if isinstance(v, tuple):
+        return "x".join(str(x) for x in v)
+    return str(v)
+
+
+def options_part(R: Run, mods):
+    """falsy-but-meaningful option values through every forwarding layer
+    (xr_reproject -> _extract_output_geobox_params -> .odc.output_geobox -> compute_output_geobox)"""
+    import xarray as xr
+    from odc.geo import _xr_interop as xi
+
+    Affine, GeoBox, GCPGeoBox, GCPMapping, oxr, xy_ = mods
+    rng = R.rng
+    # (1) the splitter itself, compared with the model
+    pools = {"tol": [0, 0.0, 0.01, 0.2], "tight": [False, True], "anchor": [0, 0.5, "default", "center"],
+             "shape": [None, 0, 7, (3, 4)], "resolution": ["auto", 0, 30, 0.0], "round_resolution": [None, False, True],
+             "src_nodata": [None, 0, 255], "num_threads": [0, 2], "XSCALE": [0.0, 1.5]}
+    for _ in range(R.pick(120, 1200)):
+        keys = rng.sample(sorted(pools), rng.randint(0, len(pools)))
+        kw = {k: rng.choice(pools[k]) for k in keys}
+        line = "c09 params " + list_s([f"{k}={val_s(v)}" for k, v in kw.items()])
+
+        def f():
+            rest = dict(kw)
+            fwd = xi._extract_output_geobox_params(rest)
+            return (list_s(sorted(f"{k}={val_s(v)}" for k, v in fwd.items())) + " "
+                    + list_s(sorted(f"{k}={val_s(v)}" for k, v in rest.items())))
+
+        R.corr(line, f, sig="params|" + ("falsy" if any(not v for k, v in kw.items() if k in ("tol", "tight", "anchor", "shape", "resolution", "round_resolution")) else "plain"))
+
+    # (2) end to end: the grid of xr_reproject(src, crs, **kw) is the one .odc.output_geobox(crs, **kw) describes;
+    # inputs are built (from the footprint bbox the code will see) so that the footprint overshoots an output grid
+    # line by 0.1 .. 0.9 % of a pixel: tol=0 and the default tol=0.01 then give different grids
+    effective = 0
+    for it in range(R.pick(26, 200)):
+        if rng.random() < 0.5:
+            r = rng.choice([10, 30, 0.5])
+            src = GeoBox((rng.randint(5, 25), rng.randint(5, 30)), Affine(r, 0, 500000 + r * rng.randint(0, 500) + rng.uniform(0, r), 0, -r,
+                                                                         6000000 - r * rng.randint(0, 500) - rng.uniform(0, r)), "EPSG:32633")
+            crs = rng.choice(["EPSG:32633", "EPSG:32633", "EPSG:3857", "EPSG:4326", "utm"])
+        else:
+            r = rng.choice([0.25, 0.01, 1 / 3])
+            src = GeoBox((rng.randint(5, 25), rng.randint(5, 30)), Affine(r, 0, rng.uniform(-20, 30), 0, -r, rng.uniform(30, 55)), "EPSG:4326")
+            crs = rng.choice(["EPSG:4326", "EPSG:3857", "EPSG:3035", "utm"])
+        case = {"options": True, "src": src_s(src), "crs": crs}
+        try:
+            xx = make_xx(oxr, src, None, None, rng.random() < 0.2, dtype="uint8", cn=rng.choice(["spatial_ref", "crs"]))
+            base = xx.odc.output_geobox(crs)
+            bbox = src.footprint(crs, buffer=0.9, npoints=100).boundingbox
+            res = abs(base.resolution.x) * rng.choice([1, 1, 2, 0.5, 3.3])
+            eps = rng.uniform(0.001, 0.009)
+            anchor = xy_((bbox.right / res - eps) % 1.0, (bbox.top / res - eps) % 1.0)
+            kw = {"resolution": res if rng.random() < 0.7 else np.float64(res), "anchor": anchor, "tol": rng.choice([0, 0.0, 0, 0.005])}
+            k = rng.random()
+            if k < 0.25:
+                kw = {"tol": rng.choice([0, 0.0])}  # default resolution / anchor, only the falsy tol
+            elif k < 0.4:
+                kw = {"anchor": rng.choice([0, 0.5, 0.0]), "tol": 0, "resolution": res}
+            for extra, vals in (("tight", [False, True, False]), ("shape", [None]), ("round_resolution", [None, False]),
+                                ("resampling", ["nearest"]), ("dst_nodata", [0, None])):
+                if rng.random() < 0.35:
+                    kw[extra] = rng.choice(vals)
+            gkw = {k_: v for k_, v in kw.items() if k_ not in ("resampling", "dst_nodata")}
+            case["kw"] = {k_: val_s(v) if not hasattr(v, "xy") else f"xy({v.x},{v.y})" for k_, v in kw.items()}
+            want = xx.odc.output_geobox(crs, **gkw)
+            want_default_tol = xx.odc.output_geobox(crs, **{k_: v for k_, v in gkw.items() if k_ != "tol"})
+            if want != want_default_tol:
+                effective += 1
+            objs = {"da": xx, "ds": xr.Dataset({"a": xx, "b": xx + 1})}
+        except Exception as e:  # pylint: disable=broad-except
+            R.oracle(False, "reproject|options|setup-raises", case, repr(e))
+            continue
+        for kind, obj in objs.items():
+            try:
+                out = obj.odc.reproject(crs, **kw) if rng.random() < 0.5 else oxr.xr_reproject(obj, crs, **kw)
+                got = out.odc.geobox
+            except Exception as e:  # pylint: disable=broad-except
+                R.oracle(False, f"reproject|{kind}|options|raises", case, repr(e))
+                continue
+            A, B = tuple(want.affine)[:6], tuple(got.affine)[:6]
+            px = max(abs(A[0]), abs(A[4]))
+            ok = (tuple(got.shape) == tuple(want.shape) and got.crs == want.crs
+                  and all(abs(a - b) <= 1e-9 * max(abs(a), px * max(want.shape), 1) for a, b in zip(A, B)))
+            R.oracle(bool(ok), f"reproject|{kind}|options-forwarded", case,
+                     f"reproject(crs, **kw) sits on {tuple(got.shape)} {B}, but output_geobox(crs, **kw) is {tuple(want.shape)} {A}"
+                     + (f" (default-tol grid: {tuple(want_default_tol.shape)})" if want != want_default_tol else ""),
+                     sig=f"options|{kind}|{'tol-matters' if want != want_default_tol else 'plain'}")
+    R.count("options:tol-zero-differs-from-default", effective)
 
 
 def reproject_part(R: Run, mods):
@@ -703,7 +846,7 @@ def reproject_part(R: Run, mods):
             ops = []
         as_ds = rng.random() < 0.45
         cn = rng.choice(["spatial_ref", "spatial_ref", "crs", "foo"])
-        post = [rng.choice([("arith",), ("type",), ("pickle",)]) for _ in range(rng.choice([0, 1, 1, 2]))]
+        post = [rng.choice([("arith",), ("type",), ("pickle", rng.choice(RT_KINDS), rng.random() < 0.6)]) for _ in range(rng.choice([0, 1, 1, 2]))]
         attr_keys = list(attrs)
         kind = "ds" if as_ds else "da"
         case = {"reproject": kind, "src": src_s(src), "dst": src_s(dst), "nt": nt, "nb": nb, "dask": dask,
